@@ -6,5 +6,7 @@ export CARGO_NET_OFFLINE=true
 mkdir -p "$ROOT/target" "$ROOT/evidence" "$ROOT/replays"
 cd "$ROOT/harness" && cargo build --offline 2>&1 | tail -3
 [ -x "$ROOT/target/harness/debug/vverif" ] || { echo "setup: harness build failed"; exit 1; }
+# the Python extension used by C30 (checks.d/C30.sh rebuilds it incrementally on every run)
+(cd /repo && RUSTC_WRAPPER= CARGO_TARGET_DIR="$ROOT/target/py" cargo build --offline -p vibesql-python-bindings 2>&1 | tail -1) || echo "setup: python extension build failed (C30 will report inconclusive)"
 if [ -x "$ROOT/setup.d/extra.sh" ]; then "$ROOT/setup.d/extra.sh" || exit 1; fi
 echo "setup ok"
